@@ -387,6 +387,51 @@ def memorize_contracts():
             'implies(OLD_index >= len(OLD_yielded), SOURCE.pos == '
             'len(OLD_yielded) + 1 and yielded == SOURCE.seq[:SOURCE.pos])'],
         serves=('C13', 'C14'), native=False))
+    # the same object, as built by the real memorize() (closure and all),
+    # driven through multi-step histories on a source of ANY length
+    S_ = 'collection.seq'
+    cs.append(Contract(
+        U + 'memorize', name='utils.memorize/second-pass-is-free',
+        params=dict(collection=TIter(TVal), engine=TVal),
+        requires=['len(collection.seq) >= 1'],
+        after='def after(m):\n'
+              '    a = next(m)\n'
+              '    r2 = iter(m)\n'
+              '    return (a, r2)\n',
+        ensures=['result[0] == old_collection.seq[0]',
+                 # starting another pass pulls nothing
+                 'collection.pos == 1',
+                 'isinstance(result[1], "RememberingIterator") and '
+                 'result[1].index == 0 and result[1] is not MADE'],
+        serves=('C13', 'C14'), native=False))
+    cs.append(Contract(
+        U + 'memorize', name='utils.memorize/interleaved-readers',
+        params=dict(collection=TIter(TVal), engine=TVal),
+        requires=['len(collection.seq) >= 3'],
+        # the second reader overtakes the first one and falls behind again
+        after='def after(m):\n'
+              '    r2 = iter(m)\n'
+              '    a = next(m)\n'
+              '    b = next(r2)\n'
+              '    c = next(r2)\n'
+              '    d = next(m)\n'
+              '    e = next(m)\n'
+              '    f = next(r2)\n'
+              '    return (a, b, c, d, e, f)\n',
+        ensures=['result[0] == old_collection.seq[0] and result[1] == '
+                 'old_collection.seq[0]',
+                 'result[2] == old_collection.seq[1] and result[3] == '
+                 'old_collection.seq[1]',
+                 'result[4] == old_collection.seq[2] and result[5] == '
+                 'old_collection.seq[2]',
+                 # every source element is pulled once, when first needed
+                 'collection.pos == 3'],
+        serves=('C13', 'C14'), native=False))
+    cs.append(Contract(
+        U + 'memorize', name='utils.memorize/sized-collections-pass',
+        params=dict(collection=TSeq(TVal), engine=TVal),
+        ensures=['result is collection'],
+        serves=('C13', 'C14'), native=False))
     return cs
 
 
@@ -516,6 +561,27 @@ def wrapper_contracts():
                'OLD_FIRST and collection.order[1][0] is selector and '
                'collection.order[1][1] is False'], serves=('C13',))
     return cs
+
+
+class _local_class:
+    """The class object of a class defined inside a function (it is in the
+    closure of its own methods)."""
+    is_factory = True
+
+    def __init__(self, target):
+        self.target = target
+
+    def __call__(self, name, path):
+        from vlib.pyvc.world import find_function
+        world = obj.world
+        parts = self.target.split('.')
+        for i in range(len(parts) - 1, 0, -1):
+            m = '.'.join(parts[:i])
+            if world.is_repo_module(m):
+                mod = world.module(m)
+                node = find_function(mod, '.'.join(parts[i:]))
+                return world.class_ref(mod, node)
+        raise LookupError(self.target)
 
 
 class _kw_default:
